@@ -45,6 +45,7 @@ class ConnGen:
         self.pool = ifaces or [i for i in proto if i not in ('fake_enums', 'wl_display', 'wl_registry')]
         self.freed = []            # client ids deleted (reusable)
         self.maxgen = {}
+        self.unres = 0.0           # rate of messages about objects the log never saw being created (capture started mid-session)
 
     # ------------------------------------------------------------------
     def latest(self, i):
@@ -191,6 +192,28 @@ class ConnGen:
         return {'e': 'msg', 'tag': self.tag, 't': t,
                 'm': {'ttype': o.type, 'tid': o.id, 'name': name, 'sent': sent, 'args': args}}
 
+    def stray(self, t):
+        """a message on / about an object whose creation is not in the log: recorded and shown all the same, as unresolved"""
+        r = self.r
+        i = r.choice([901, 902, 950, 4000])
+        c = r.random()
+        if c < 0.5:
+            name = r.choice(['commit', 'damage'])
+            return {'e': 'msg', 'tag': self.tag, 't': t,
+                    'm': {'ttype': 'wl_surface', 'tid': i, 'name': name, 'sent': not self.server_side,
+                          'args': [] if name == 'commit' else [{'k': 'int', 'v': 0}, {'k': 'int', 'v': 0}, {'k': 'int', 'v': 10}, {'k': 'int', 'v': 10}]}}
+        if c < 0.75:
+            # a known object of another type than the line says (a stale id): unresolved as well
+            known = self.anyobj(lambda o: o.id > 1 and o.type != 'wl_buffer')
+            if known:
+                o = r.choice(known)
+                return {'e': 'msg', 'tag': self.tag, 't': t,
+                        'm': {'ttype': 'wl_buffer', 'tid': o.id, 'name': 'release', 'sent': self.server_side, 'args': []}}
+        # an unknown object as an argument of a message on the display
+        return {'e': 'msg', 'tag': self.tag, 't': t,
+                'm': {'ttype': 'wl_display', 'tid': 1, 'name': 'error', 'sent': self.server_side,
+                      'args': [{'k': 'obj', 'type': 'wl_surface', 'id': i}, {'k': 'int', 'v': 1}, {'k': 'str', 's': 'stale'}]}}
+
     def usable_msgs(self, iface):
         return [m for m in self.proto[iface]['msgs'] if (iface + '.' + m) not in self.amb]
 
@@ -206,6 +229,8 @@ class ConnGen:
                 return {'e': 'msg', 'tag': self.tag, 't': t,
                         'm': {'ttype': 'wl_display', 'tid': 1, 'name': 'get_registry', 'sent': not self.server_side,
                               'args': [{'k': 'new', 'type': 'wl_registry', 'id': o.id}]}}
+        if self.unres and r.random() < self.unres:
+            return self.stray(t)
         for _ in range(50):
             c = r.random()
             regs = self.live(lambda o: o.type == 'wl_registry')
@@ -279,12 +304,13 @@ CORE_IFACES = ['wl_compositor', 'wl_surface', 'wl_region', 'wl_shm', 'wl_shm_poo
 
 class SessionGen:
     def __init__(self, seed, nconn=(1, 3), nmsg=(10, 40), junk=0.1, cmds=0.0, core=True, dy=False, tags=True,
-                 matcher_depth=1, show=None, with_init_filter=0.0):
+                 matcher_depth=1, show=None, with_init_filter=0.0, unresolved=0.0, zero_start=0.15):
         self.r = random.Random(seed)
         d = protoextract.load()
         self.proto, self.kinds, self.amb = d['proto'], d['kinds'], set(d['amb_msgs'])
         self.opt = dict(nconn=nconn, nmsg=nmsg, junk=junk, cmds=cmds, core=core, dy=dy, tags=tags,
-                        matcher_depth=matcher_depth, show=show, with_init_filter=with_init_filter)
+                        matcher_depth=matcher_depth, show=show, with_init_filter=with_init_filter, unresolved=unresolved,
+                        zero_start=zero_start)
 
     def session(self):
         r, o = self.r, self.opt
@@ -298,13 +324,19 @@ class SessionGen:
             nconn = 1
         pool = [i for i in CORE_IFACES if i in self.proto] if (o['core'] is True or (o['core'] is None and r.random() < 0.6)) else None
         conns = [ConnGen(r, tg, r.random() < 0.3, self.proto, self.kinds, self.amb, pool) for tg in tags]
+        for c in conns:
+            c.unres = o['unresolved']
         n = r.randint(*o['nmsg'])
         t = r.choice([0, 5, 770203519, 1999000000]) if not o['dy'] else r.choice([0, 125000 * 8, 125000 * 12345])
         events = []
         mg = MatcherGen(r, o['matcher_depth'])
         weights = [r.random() + 0.2 for _ in conns]
+        zero = r.random() < o['zero_start']      # a log whose first time stamp is exactly 0.000
+        if zero:
+            t = 0
         for k in range(n):
-            t += r.choice(GAPS_DY if o['dy'] else GAPS)
+            if not (zero and k == 0):
+                t += r.choice(GAPS_DY if o['dy'] else GAPS)
             if t > 2100000000:
                 t = 2100000000
             if r.random() < o['junk']:
